@@ -22,6 +22,31 @@ def neighbours (bshape : List Nat) (bc : Array Int) : List (List Int) :=
     let k := subPos (unravelI bshape i) c
     if bc.getD i 0 == 0 || isZeroPos k then none else some k
 
+/-! ### decidable checks of the hypotheses of the theorems (soundness: `Proofs/StarCheck.lean`) -/
+
+/-- the integers between 0 and `a` (inclusive) -/
+def intRange (a : Int) : List Int :=
+  if 0 ≤ a then (List.range (a.toNat + 1)).map (fun (n : Nat) => Int.ofNat n)
+  else (List.range ((-a).toNat + 1)).map (fun (n : Nat) => -Int.ofNat n)
+
+/-- every offset between 0 and `k`, coordinate-wise -/
+def betweens : List Int → List (List Int)
+  | [] => [[]]
+  | a :: as => (intRange a).flatMap fun a' => (betweens as).map fun r => a' :: r
+
+/-- the neighbourhood (centre removed) is coordinate-wise star-shaped -/
+def starShapedB (nb : List (List Int)) : Bool :=
+  nb.all fun k => (betweens k).all fun k' => isZeroPos k' || nb.contains k'
+
+/-- the neighbourhood is symmetric and its offsets have the given rank -/
+def symNbB (rank : Nat) (nb : List (List Int)) : Bool :=
+  nb.all fun k => nb.contains (negPos k) && k.length == rank
+
+/-- element offsets (with heights) closed under "between 0 and a member" and under negation -/
+def symStarB (sup : List (List Int × Int)) : Bool :=
+  sup.all fun kh =>
+    ((betweens kh.1).all fun k' => (sup.map (·.1)).contains k') && (sup.map (·.1)).contains (negPos kh.1)
+
 /-! ### `locmin_max` -/
 
 /-- `a` beats `b`: strictly lower (minima) / strictly higher (maxima) -/
@@ -206,14 +231,17 @@ def handle (a : Args) : String :=
   | "loc" =>
     let isMin := a.nat "min" == 1
     let nb := neighbours bshape bc
-    s!"model={showBools (locModel isMin A nb).toList} spec={showBools ((allPos shape).map (locSpecAt isMin A nb))}"
+    let regular := starShapedB nb && symNbB shape.length nb
+    s!"model={showBools (locModel isMin A nb).toList} spec={showBools ((allPos shape).map (locSpecAt isMin A nb))} regular={if regular then 1 else 0}"
   | "reg" =>
     let isMin := a.nat "min" == 1
     let nb := neighbours bshape bc
-    s!"model={showBools (regModel isMin A nb).toList} spec={showBools (regSpec isMin A nb).toList} loc={showBools ((allPos shape).map (locSpecAt isMin A nb))}"
+    let regular := starShapedB nb && symNbB shape.length nb
+    s!"model={showBools (regModel isMin A nb).toList} spec={showBools (regSpec isMin A nb).toList} loc={showBools ((allPos shape).map (locSpecAt isMin A nb))} regular={if regular then 1 else 0}"
   | "holes" =>
     let nb := neighbours bshape bc
-    s!"model={showBools (closeHoles A nb).toList} spec={showBools (closeHolesSpec A nb).toList}"
+    let regular := symNbB shape.length nb
+    s!"model={showBools (closeHoles A nb).toList} spec={showBools (closeHolesSpec A nb).toList} regular={if regular then 1 else 0}"
   | "hitmiss" =>
     let es := hmEntries bshape bc
     s!"model={showInts ((allPos shape).map (hitmissAt A bshape es))} modelrev={showInts ((allPos shape).map (hitmissAt A bshape es.reverse))} spec={showInts ((allPos shape).map (hitmissSpecAt A bshape bc))}"
